@@ -217,6 +217,23 @@ def spell_pre(sp, inner, r):
     raise ValueError(k)
 
 
+VAR_NAMES = ['c1', 'w', 'main-color', 'x', 'a', 'gap', 'Z9', 'big_width']
+
+
+def spell_var_decl(sp, inner, name, comps):
+    return {'name': name.lower(), 'mask': sp.mask(name.lower()), 'g1': sp.gap(), 'g2': sp.gap(),
+            'value': opaque(G.r_value(inner, comps)), 'g3': sp.gap()}
+
+
+def spell_variables(sp, inner, rng):
+    """one `@variables` rule (an abstract rule made here: distinct names, values of c02_gen)"""
+    names = rng.sample(VAR_NAMES, rng.randint(0, 3))
+    decls = [spell_var_decl(sp, inner, n, G.gen_value(rng)) for n in names]
+    last = decls.pop() if decls and rng.random() < 0.5 else None
+    blk = {'lead': sp.gap(), 'items': [(d, sp.gap()) for d in decls], 'last': last}
+    return ('variables', sp.mask('variables', True), sp.gap(), blk, sp.wgap())
+
+
 def supported(ast):
     return list(ast)
 
@@ -225,7 +242,12 @@ def spell_sheet(ast, rng, level, inner_level):
     """-> spelled sheet"""
     sp = Sp(rng, level)
     inner = G.Spelling(random.Random(rng.getrandbits(32)), inner_level) if inner_level else G.Spelling(None)
-    charset, imports, namespaces, rules = None, [], [], []
+    charset, imports, namespaces, variables, rules = None, [], [], [], []
+    if rng.random() < 0.3:
+        for _ in range(rng.choice([1, 1, 2])):
+            if level >= 2 and rng.random() < 0.2:
+                variables.append(('comment', ' before variables ', sp.wgap()))
+            variables.append(spell_variables(sp, inner, rng))
     for r in ast:
         k = r[0]
         if k == 'charset':
@@ -240,7 +262,8 @@ def spell_sheet(ast, rng, level, inner_level):
             namespaces.append(spell_pre(sp, inner, r))
         else:
             rules.append(spell_rule(sp, inner, r))
-    return {'charset': charset, 'lead': sp.wgap(), 'imports': imports, 'namespaces': namespaces, 'rules': rules}
+    return {'charset': charset, 'lead': sp.wgap(), 'imports': imports, 'namespaces': namespaces,
+            'variables': variables, 'rules': rules}
 
 
 def wellformed(ss):
@@ -272,6 +295,12 @@ def wellformed(ss):
     for i in ss['imports']:
         if i[0] == 'import' and i[5] and not is_core(i[5][0]):
             return False
+    for v in ss.get('variables', ()):
+        if v[0] == 'variables':
+            ds = [d for d, _ in v[3]['items']] + ([v[3]['last']] if v[3]['last'] else [])
+            # `SVarDecl.WF`: a core that does not start with a comment
+            if not all(is_core(d['value']) and d['value']['toks'][0][0] not in ('S', 'COMMENT') for d in ds):
+                return False
     return all(rule_ok(r) for r in ss['rules'])
 
 
@@ -390,10 +419,24 @@ def t_pre(r):
     raise ValueError(k)
 
 
+def t_var_decl(d):
+    return spell_name(d['name'], d['mask']) + t_gap(d['g1']) + ':' + t_gap(d['g2']) + d['value']['text'] + t_gap(d['g3'])
+
+
+def t_var(r):
+    if r[0] == 'comment':
+        return '/*' + r[1] + '*/' + t_wgap(r[2])
+    _, m, g0, blk, w = r
+    body = t_gap(blk['lead']) + ''.join(t_var_decl(d) + ';' + t_gap(g) for d, g in blk['items']) + \
+        (t_var_decl(blk['last']) if blk['last'] else '')
+    return '@' + spell_name('variables', m) + t_gap(g0) + '{' + body + '}' + t_wgap(w)
+
+
 def text(ss):
     cs = ('@charset ' + t_quote(*ss['charset']) + ';') if ss['charset'] else ''
     return cs + t_wgap(ss['lead']) + ''.join(t_pre(r) for r in ss['imports']) + \
-        ''.join(t_pre(r) for r in ss['namespaces']) + ''.join(t_rule(r) for r in ss['rules'])
+        ''.join(t_pre(r) for r in ss['namespaces']) + ''.join(t_var(r) for r in ss.get('variables', ())) + \
+        ''.join(t_rule(r) for r in ss['rules'])
 
 
 # -- s-expression for the driver --------------------------------------------------------------------------
@@ -520,11 +563,26 @@ def x_pre(r):
     raise ValueError(k)
 
 
+def x_var_decl(d):
+    return '( %s %s %s %s %s %s )' % (enc(d['name']), x_mask(d['mask']), x_gap(d['g1']), x_gap(d['g2']),
+                                      x_toks(d['value']), x_gap(d['g3']))
+
+
+def x_var(r):
+    if r[0] == 'comment':
+        return '( comment %s %s )' % (enc(r[1]), x_wgap(r[2]))
+    _, m, g0, blk, w = r
+    xb = '( %s ( %s ) %s )' % (x_gap(blk['lead']), ' '.join('( %s %s )' % (x_var_decl(d), x_gap(g)) for d, g in blk['items']),
+                               x_var_decl(blk['last']) if blk['last'] else 'none')
+    return '( variables %s %s %s %s )' % (x_mask(m), x_gap(g0), xb, x_wgap(w))
+
+
 def sx(ss):
     cs = '( %s %s )' % (ss['charset'][0], enc(ss['charset'][1])) if ss['charset'] else 'none'
-    return '%s %s ( %s ) ( %s ) ( %s )' % (cs, x_wgap(ss['lead']), ' '.join(x_pre(r) for r in ss['imports']),
-                                          ' '.join(x_pre(r) for r in ss['namespaces']),
-                                          ' '.join(x_rule(r) for r in ss['rules']))
+    return '%s %s ( %s ) ( %s ) ( %s ) ( %s )' % (cs, x_wgap(ss['lead']), ' '.join(x_pre(r) for r in ss['imports']),
+                                                 ' '.join(x_pre(r) for r in ss['namespaces']),
+                                                 ' '.join(x_var(r) for r in ss.get('variables', ())),
+                                                 ' '.join(x_rule(r) for r in ss['rules']))
 
 
 # -- erase: the abstract sheet, in the JSON shape of the driver ------------------------------------------
@@ -603,6 +661,15 @@ def e_pre(r):
     raise ValueError(k)
 
 
+def e_var(r):
+    if r[0] == 'comment':
+        return {'k': 'comment', 'body': enc(r[1])}
+    blk = r[3]
+    ds = [d for d, _ in blk['items']] + ([blk['last']] if blk['last'] else [])
+    return {'k': 'variables', 'vars': [{'name': enc(d['name']), 'value': j_toks(d['value'])} for d in ds]}
+
+
 def erase(ss):
     cs = [{'k': 'charset', 'enc': enc(ss['charset'][1])}] if ss['charset'] else []
-    return cs + [e_pre(r) for r in ss['imports']] + [e_pre(r) for r in ss['namespaces']] + [e_rule(r) for r in ss['rules']]
+    return cs + [e_pre(r) for r in ss['imports']] + [e_pre(r) for r in ss['namespaces']] + \
+        [e_var(r) for r in ss.get('variables', ())] + [e_rule(r) for r in ss['rules']]
